@@ -115,19 +115,23 @@ def true_range(terms, per, cell, L0):
     return best
 
 
+_n_apply = 0
+
+
 def gen_chain(rng, idx):
+    # stratification by mixed-radix digits of the index: kind x bc x structural plan every 36 cases, charges / flag / form on top
     kind = ['SpinHalf', 'Fermion', 'SpinHalf'][idx % 3]
     finite = (idx // 3) % 2 == 0
-    conserve = [None, 'Sz' if kind == 'SpinHalf' else 'N'][(idx // 6) % 2]
-    flag = idx % 7 == 3
-    plan = idx % 5                          # structural plan
+    plan = (idx // 6) % 6                   # structural plan (5: segment of the ungrouped MPO)
+    conserve = [None, 'Sz' if kind == 'SpinHalf' else 'N'][1 if idx % 4 >= 2 else 0]
+    flag = idx % 11 == 5
     if finite:
-        L = [4, 6, 5, 4, 6][plan]
+        L = [4, 6, 5, 4, 6, 5][plan]
         N, cell, nsite = L, None, L
         maxr = L - 1
     else:
-        L = [1, 2, 2, 1, 2][plan]
-        N = 4 if L == 1 else [4, 8, 4, 4, 4][plan]
+        L = [1, 2, 2, 1, 2, 2][plan]
+        N = 4 if L == 1 else [4, 8, 4, 4, 4, 6][plan]
         cell, nsite = L, N
         maxr = 2 if N >= 4 else 1
     form = ['graph', 'sum', 'neg'][(idx // 2) % 3]
@@ -197,7 +201,7 @@ def gen_chain(rng, idx):
             # MPO.__add__ documents "standard sum form": plus_identity with beta != 1 puts beta on the IdL -> IdL entry
             s_[2] = [1.0, 0.0]
     # (extract_segment of a grouped MPO / MPS divides by L // unit_cell_width = 0: grouping documents that unit_cell_width is unchanged)
-    segment = (idx % 4 == 1) and per == 1 and not any(x[0] == 'plus_identity' for x in steps)
+    segment = (plan == 5 or (plan == 3 and idx % 2 == 1)) and per == 1 and not any(x[0] == 'plus_identity' for x in steps)
     if segment:
         if finite:
             Lcur = L // per
@@ -230,7 +234,8 @@ def gen_chain(rng, idx):
                 d = rng.choice([0.01, 0.1, 1.0])
                 terms[k] = [terms[k][0], [terms[k][1][0] + d, terms[k][1][1]]]
                 # (with the flag the perturbed coefficient is the one of a stored term: its conjugate partner changes as well)
-            spec = {'terms': terms, 'tag': tg, 'form': rng.choice(['graph', 'sum']), 'split': 1, 'range': tagsel(), 'how': 'ctor', 'plus_hc': qflag}
+            spec = {'terms': terms, 'tag': tg, 'form': rng.choice(['graph', 'sum']), 'split': 1, 'range': tagsel(), 'how': 'ctor', 'plus_hc': qflag,
+                    'order': rng.choice(['RQ', 'QR'])}
             if not finite and last['segment'] is None:
                 spec['default_window'] = True
                 if rng.random() < 0.5:
@@ -246,7 +251,7 @@ def gen_chain(rng, idx):
                 {'kind': 'rue', 'p_state': [rng.choice(['up', 'down'] if kind == 'SpinHalf' else ['empty', 'full']) for _ in range(L)]}
         else:
             case['state'] = {'charged': conserve is not None}
-            case['psi_L'] = L * per * rng.choice([1, 2])
+            case['psi_L'] = L * per * (rng.choice([1, 2]) if L * per <= 2 else 1)
     ungrouped = per == 1
     if ungrouped and last['segment'] is None and not has_alpha:
         opts = {'ignore': ['Id']}
@@ -260,20 +265,29 @@ def gen_chain(rng, idx):
         elif v == 3 and simple:
             opts['max_range'] = rng.randint(0, 2)
         final.append(['to_TermList', opts])
-    if finite and ungrouped and last['segment'] is None and not flag and idx % 3 == 0:
+    if finite and last['segment'] is None and not flag and idx % 3 == 0 and not any(x[0] == 'plus_identity' for x in steps):
+        # (make_U_I asserts that all markers are known: not the case after plus_identity)
         t0 = rng.choice([0.08, 0.05])
         imag = rng.random() < 0.5
         final.append(['make_U', [[0, -t0 / 2 ** n] if imag else [-t0 / 2 ** n, 0] for n in range(3)], ['I', 'II']])
-    if finite and ungrouped and last['segment'] is None and not flag:
+    global _n_apply
+    if finite and last['segment'] is None and not flag:
         big = {'chi_max': 200, 'svd_min': 1e-14}
         meths = [{'name': 'naive', 'method': 'naive', 'trunc_params': big},
                  {'name': 'svd', 'method': 'SVD', 'trunc_params': big},
-                 {'name': 'zip_up', 'method': 'zip_up', 'trunc_params': big, 'm_temp': rng.choice([1, 2, 3]), 'trunc_weight': rng.choice([0.5, 1.0])},
+                 {'name': 'zip_up', 'method': 'zip_up', 'trunc_params': big, 'm_temp': 2, 'trunc_weight': 1.0},
+                 {'name': 'zip_up_m1', 'method': 'zip_up', 'trunc_params': big, 'm_temp': 1, 'trunc_weight': 0.5},
+                 {'name': 'zip_up_m3', 'method': 'zip_up', 'trunc_params': big, 'm_temp': 3, 'trunc_weight': 1.0},
                  {'name': 'zip_up_nomin', 'method': 'zip_up', 'trunc_params': {'chi_max': 200}},
                  {'name': 'zip_up_direct', 'method': 'zip_up_direct', 'trunc_params': big, 'm_temp': 2},
                  {'name': 'var', 'method': 'variational', 'trunc_params': big, 'max_sweeps': 12, 'min_sweeps': 2},
                  {'name': 'varQR', 'method': 'variationalQR', 'trunc_params': big, 'max_sweeps': 12, 'min_sweeps': 2}]
-        final.append(['apply', meths[idx % len(meths)]])
+        m_ = meths[_n_apply % len(meths)]                           # (every method in turn)
+        if m_['method'].startswith('variational') and (L + per - 1) // per <= 2:
+            m_ = meths[1]                                           # (two-site sweeps need more than two sites: the turn is kept)
+        else:
+            _n_apply += 1
+        final.append(['apply', m_])
         final.append(['env', rng.randint(0, L - 2)])
     case['final'] = final
     return case
@@ -340,13 +354,13 @@ def check_chain(ctx, case, r):
         if step[0] in ('group', 'copy_mutate', 'wflat'):
             tag('chain:step:%s:%s' % (step[0], step[1] if step[0] != 'group' else step[2]))
         if flag:
-            tag('chain:step:%s:explicit_plus_hc' % step[0])
+            tag('chain:step:%s:explicit_plus_hc' % step[0], 'chain:any-step:explicit_plus_hc')
         if entry['per'] > 1:
-            tag('chain:step:%s:on-grouped' % step[0])
+            tag('chain:step:%s:on-grouped' % step[0], 'chain:any-step:on-grouped')
         if entry['segment'] is not None:
-            tag('chain:step:%s:on-segment' % step[0])
+            tag('chain:step:%s:on-segment' % step[0], 'chain:any-step:on-segment')
         if any(x is not None and x < 0 for x in (r['steps'][k - 1]['meta'] if k else r['start'])['IdR']):
-            tag('chain:step:%s:operand-with-negative-IdR' % step[0])
+            tag('chain:step:%s:operand-with-negative-IdR' % step[0], 'chain:any-step:operand-with-negative-IdR')
         if got is None or got.shape != ref.shape or maxdiff(got, ref) > TOL * scale:
             probs.append(('C11:chain:%s:dense' % step[0], '%s: the contraction of the W tensors differs from the operator by %s'
                           % (desc, 'shape %s vs %s' % (None if got is None else got.shape, ref.shape) if got is None or got.shape != ref.shape
@@ -581,6 +595,8 @@ def check_default_window(case, r, ops, o, spec, entry, flag, qdesc, probs):
         return m['L'] + 2 * (m['L'] if rr is None or rr == 'inf' else int(rr))
     nw = max(win(mR), win(mQ)) * per
     for od, other in (('RQ', mQ), ('QR', mR)):
+        if od != spec.get('order', 'RQ'):
+            continue
         unknown = other['max_range'] is None or other['max_range'] == 'inf'
         tag('overlap:default-num_sites', 'overlap:default-num_sites:other-%s' % ('unknown' if unknown else 'known'))
         if 'overlap_default_raises_' + od in o:
@@ -644,7 +660,7 @@ def gen_ctor(rng, idx):
                     if rng.random() < 0.4:
                         w[i] = [round(rng.uniform(-0.01, 0.01), 4), 0.0]
         if conserve is None:
-            state = {'kind': rng.choice(['full', 'product'])}
+            state = {'kind': 'full'}
         else:
             # a sector the operator does not annihilate
             lab = (['empty', 'full'] if fermion else ['up', 'down'])
@@ -657,7 +673,7 @@ def gen_ctor(rng, idx):
         case.update({'variant': 'wavepacket', 'site': {'type': kind, 'conserve': conserve}, 'L': L, 'op': op, 'w1': w1, 'w2': w2, 'eps': eps,
                      'state': state,
                      # (variational compression started from a product state: known finding F113)
-                     'methods': rng.sample(['SVD', 'zip_up', 'naive'] + ([] if state['kind'] == 'product' else ['variational']), 2)})
+                     'methods': [['SVD', 'variational', 'zip_up', 'naive'][(idx // 7 + j_) % 4] for j_ in (0, 1)]})
     elif v == 'grids_finite':
         kind = rng.choice(['SpinHalf', 'Fermion'])
         L = rng.choice([2, 3, 4])
@@ -666,10 +682,10 @@ def gen_ctor(rng, idx):
                                                       (rng.choice(['list', 'arr']), ent)][0]
         case.update({'variant': 'grids', 'site': {'type': kind, 'conserve': None}, 'L': L, 'N': L, 'bc': 'finite', 'spec': g,
                      'grids': [[[kinds(e) for e in row] for row in G] for G in g['grids']],
-                     'IdL': 0 if rng.random() < 0.5 else [0] * (L + 1), 'IdR': -1 if rng.random() < 0.5 else [-1] * (L + 1),
-                     'max_range': rng.choice([None, L, 'skip']), 'explicit_plus_hc': (idx // 7) % 2 == 1,
+                     'IdL': 0 if (idx // 7) % 2 else [0] * (L + 1), 'IdR': -1 if (idx // 7) % 2 else [-1] * (L + 1),
+                     'max_range': [None, L][(idx // 7) % 2], 'explicit_plus_hc': (idx // 7) % 2 == 1,
                      'state': {'kind': rng.choice(['full', 'product'])}})
-        if case['max_range'] == 'skip':
+        if False:
             case['max_range'] = None
     elif v == 'grids_infinite':
         # nearest-neighbour + on-site Hamiltonian in standard form, unit cell of L sites with different couplings, charges derived from the grid
@@ -690,13 +706,13 @@ def gen_ctor(rng, idx):
                           [None, None, None, None, ('list', [['Sz', Dp]])],
                           [None, None, None, None, ('str', 'Id')]])
         case.update({'variant': 'grids', 'site': {'type': kind, 'conserve': conserve}, 'L': L, 'N': {1: 4, 2: 4, 3: 6}[L], 'bc': 'infinite', 'terms': terms,
-                     'grids': grids, 'IdL': 0, 'IdR': -1, 'max_range': rng.choice([None, 1]), 'explicit_plus_hc': False,
+                     'grids': grids, 'IdL': 0, 'IdR': -1, 'max_range': [None, 1][(idx // 7) % 2], 'explicit_plus_hc': False,
                      'state': {'charged': conserve is not None}})
     elif v == 'grids_qtotal':
         # a product of single-site operators with charged W tensors (option Ws_qtotal), between states of different sectors
         kind = 'SpinHalf'
         L = rng.choice([3, 4])
-        same = rng.random() < 0.3
+        same = (idx // 7) % 2 == 1
         ops_ = ['Sp'] * L if same else [rng.choice(['Id', 'Sz', 'Sp', 'Sm']) for _ in range(L)]
         if all(o_ in ('Id', 'Sz') for o_ in ops_):
             ops_[rng.randrange(L)] = 'Sp'
@@ -707,11 +723,11 @@ def gen_ctor(rng, idx):
         case.update({'variant': 'grids', 'site': {'type': kind, 'conserve': 'Sz'}, 'L': L, 'N': L, 'bc': 'finite',
                      'grids': [[[('list', [[o_, c_]])]] for o_, c_ in zip(ops_, coef)], 'product_ops': [[o_, c_] for o_, c_ in zip(ops_, coef)],
                      'IdL': 0, 'IdR': 0, 'max_range': None, 'explicit_plus_hc': False,
-                     'Ws_qtotal': [2] if same else [[q[o_]] for o_ in ops_], 'legs_roundtrip': rng.random() < 0.5,
+                     'Ws_qtotal': [2] if same else [[q[o_]] for o_ in ops_], 'legs_roundtrip': (idx // 7) % 4 in (0, 1),
                      'bra_ket': [{'kind': 'rue', 'p_state': bra}, {'kind': 'rue', 'p_state': ket}]})
     else:
-        kind = rng.choice(['SpinHalf', 'Fermion'])
         mode = (idx // 7) % 4
+        kind = 'SpinHalf' if mode == 1 else rng.choice(['SpinHalf', 'Fermion'])     # (mode 1: a site whose charge sorting permutes the basis)
         conserve = [None, 'Sz' if kind == 'SpinHalf' else 'N', 'Sz' if kind == 'SpinHalf' else 'N', 'parity'][mode]
         finite = conserve is not None or rng.random() < 0.5
         L = rng.choice([3, 4]) if finite else rng.choice([1, 2])
@@ -719,7 +735,8 @@ def gen_ctor(rng, idx):
         terms = C.gen_terms(rng, kind, N, conserve if conserve != 'parity' else ('Sz' if kind == 'SpinHalf' else 'N'), False, rng.random() < 0.5,
                             rng.randint(1, 3), maxrange=(L - 1) if finite else 2, cell=None if finite else L)
         case.update({'variant': 'wflat', 'site': {'type': kind, 'conserve': conserve}, 'L': L, 'N': N, 'bc': 'finite' if finite else 'infinite', 'terms': terms,
-                     'permute': [None, None, False, None][mode] if conserve is not None else rng.choice([None, True, False]), 'dtype': rng.random() < 0.4})
+                     'permute': [None, None, False, None][mode] if conserve is not None else [True, None, False][(idx // 28) % 3],
+                     'dtype': (idx // 7) % 2 == 0})
     return case
 
 
@@ -919,6 +936,9 @@ def gen_evo(rng, idx):
         terms.append([[['Sx', i]], [round(rng.uniform(-1, 1), 3), 0]])
     if L == 4 and rng.random() < 0.5:
         terms.append([[['Sz', 0], ['Sz', 2]], [round(rng.uniform(-1, 1), 3), 0]])
+    onsite = idx % 12 == 11
+    if onsite:              # fields only: no virtual states besides IdL / IdR (boundary of make_W_II: exact exponential of the on-site block)
+        terms = [[[[rng.choice(['Sx', 'Sz']), i]], [round(rng.uniform(-1, 1), 3), 0]] for i in range(L)]
     rng.shuffle(terms)
     opts = {'order': order, 'approximation': approx, 'compression_method': meth, 'trunc_params': {'chi_max': 100, 'svd_min': 1e-14}}
     if meth == 'variational':
@@ -929,7 +949,7 @@ def gen_evo(rng, idx):
         del opts['order'], opts['approximation']          # documented defaults: order 2, approximation 'II'
     return {'kind': 'ext', 'sub': 'evo', 'site': {'type': 'SpinHalf', 'conserve': None}, 'L': L, 'seed': 41000 + idx,
             'A': {'terms': terms, 'form': ['graph', 'sum', 'neg'][idx % 3], 'split': rng.randint(1, len(terms) - 1), 'range': 'known'},
-            'state': {'kind': 'full'}, 'dt': rng.choice([0.1, 0.08]), 'N_steps': 2, 'options': opts, 'defaults': idx % 5 == 4}
+            'state': {'kind': 'full'}, 'dt': rng.choice([0.1, 0.08]), 'N_steps': 2, 'options': opts, 'defaults': idx % 5 == 4, 'onsite': onsite}
 
 
 def check_evo(ctx, case, r):
@@ -951,6 +971,8 @@ def check_evo(ctx, case, r):
     tag('ExpMPOEvolution', 'ExpMPOEvolution:approximation=%s' % ('default' if case['defaults'] else approx),
         'ExpMPOEvolution:order=%s' % ('default' if case['defaults'] else order), 'ExpMPOEvolution:compression_method=' + o_['compression_method'],
         'ExpMPOEvolution:H-form=' + case['A']['form'])
+    if case.get('onsite'):
+        tag('make_W_II:on-site-terms-only')
     if maxdiff(mats['H'], H) > 1e-10:
         probs.append(('C11:evo:H', '%s: Hamiltonian MPO differs from its terms' % desc))
     if maxdiff(mats['psi0_after'], mats['psi0']) > 1e-12:
@@ -1082,18 +1104,22 @@ def gen_ienv(rng, idx):
     kind = ['SpinHalf', 'Fermion'][idx % 2]
     conserve = [None, 'Sz' if kind == 'SpinHalf' else 'N'][(idx // 2) % 2]
     L = [1, 2][(idx // 4) % 2]
-    flag = idx % 5 == 3
+    iter_ok = idx % 3 == 0             # (preconditions of the iterative initialisation forced: Hermitian H, no flag, equal unit cells)
+    flag = idx % 5 == 3 and not iter_ok
     maxr = 2
-    herm = rng.random() < 0.6
+    herm = iter_ok or rng.random() < 0.5
     A = C.gen_terms(rng, kind, 4 * L, conserve, False, herm, rng.randint(1, 3) if not herm else rng.randint(1, 2), maxrange=maxr, cell=L)
-    psi_L = L * rng.choice([1, 2])
-    ent = [0, 3, 4][idx % 3] if idx % 7 else 0
+    psi_L = L if iter_ok else L * rng.choice([1, 2])
+    ent = [0, 3, 4][(idx // 3) % 3] if idx % 7 else 0
     if ent and psi_L == 1:
-        psi_L = 2                    # (random two-site unitaries need two sites)
+        if iter_ok:
+            ent = 0
+        else:
+            psi_L = 2                # (random two-site unitaries need two sites)
     return {'kind': 'ext', 'sub': 'ienv', 'site': {'type': kind, 'conserve': conserve}, 'L': L, 'N': 4 if L == 1 else 6, 'seed': 61000 + idx,
             'A': {'terms': A, 'form': ['graph', 'sum', 'neg'][idx % 3], 'split': 1, 'range': rng.choice(['known', 'known', 'none', 'inf']), 'how': 'ctor',
                   'plus_hc': flag},
-            'psi_L': psi_L, 'state': {'charged': conserve is not None}, 'entangle': ent, 'reach': maxr,
+            'psi_L': psi_L, 'state': {'charged': conserve is not None}, 'entangle': ent, 'reach': maxr, 'graph_reuse': iter_ok,
             'start_env_sites': rng.choice([1, 2]) * L}
 
 
@@ -1156,26 +1182,34 @@ def check_ienv(ctx, case, r):
         dens = dens / per
         if flag:
             dens = dens + np.conj(dens)
-        for q in ('expectation_value', 'expectation_value_TM', 'expectation_value_power', 'expectation_value_power_tol', 'TM_guess', 'expectation_value_init_env_data'):
+        for q in ('expectation_value', 'expectation_value_TM', 'expectation_value_power', 'expectation_value_power_tol', 'TM_guess', 'expectation_value_init_env_data',
+                  'TM_badguess', 'expectation_value_TM_noncanonical', 'expectation_value_sorted'):
             if q in r:
                 tag('ienv:' + q)
                 tol_ = 1e-5 if q.endswith('_tol') else 1e-7
                 if abs(cz(r[q]) - dens) > tol_ * scale:
                     probs.append(('C11:ienv:' + q, '%s: %s = %s, density from the reduced state of %d sites = %s' % (desc, q, r[q], n_th, dens)))
-        for q in ('TM_Es', 'iter_Es'):
-            if q == 'iter_Es' and (flag or maxdiff(ref, ref.conj().T) > TOL * scale):
+        for q in ('TM_Es', 'iter_Es', 'iter_Es_second', 'iter_Es_sorted', 'iter_Es_enlarged'):
+            if q.startswith('iter_Es') and (flag or maxdiff(ref, ref.conj().T) > TOL * scale):
                 continue        # (the iterative builder works on the stored tensors and takes the real part of the energy: Hamiltonians without the flag)
             for x in r.get(q, []):
                 tag('ienv:' + q)
                 if abs(cz(x) - dens) > 1e-7 * scale:
                     probs.append(('C11:ienv:' + q, '%s: energy per site %s of %s = %s, density from the reduced state = %s'
-                                  % (desc, q, {'TM_Es': 'MPOTransferMatrix.find_init_LP_RP(calc_E=True)', 'iter_Es': 'MPOEnvironmentBuilder.init_LP_RP_iterative(calc_E=True)'}[q],
+                                  % (desc, q, {'TM_Es': 'MPOTransferMatrix.find_init_LP_RP(calc_E=True)', 'iter_Es': 'MPOEnvironmentBuilder.init_LP_RP_iterative(calc_E=True)',
+                                      'iter_Es_second': 'a second MPOEnvironmentBuilder on the same MPO (graph cached)',
+                                      'iter_Es_sorted': 'MPOEnvironmentBuilder after H.sort_legcharges() (graph and cycles permuted)',
+                                      'iter_Es_enlarged': 'MPOEnvironmentBuilder after enlarge_mps_unit_cell(2) of H and psi'}[q],
                                      x, dens)))
                     break
         # converged environments (LP[IdR] / RP[IdL] are fixed up to a multiple of the identity only): full_contraction(i) with i < period - 1
         # contracts one period more than full_contraction(period - 1), the difference is period * density whatever the gauge
         herm = maxdiff(ref, ref.conj().T) <= TOL * scale
-        for meth in ('iter', 'TM', 'None'):
+        if 'W/H_sorted' in mats and maxdiff(mats['W/H_sorted'], ref) > TOL * scale:
+            probs.append(('C11:ienv:sort_legcharges', '%s: after the iterative initialisation and sort_legcharges() the W tensors denote another operator' % desc))
+        if 'had_graph' in r:
+            tag('sort_legcharges:with-cached-graph', 'enlarge_mps_unit_cell:with-cached-graph')
+        for meth in ('iter', 'TM', 'None', 'noncanonical'):
             fc = r.get('full_contraction/' + meth)
             if fc is None or per < 2:
                 continue
@@ -1219,8 +1253,11 @@ REFUSALS = {
     'add:different-flags': 'ValueError', 'from_Wflat:wrong-length': 'ValueError', 'MPO:IdL-wrong-length': 'ValueError',
     'expectation_value_TM:finite-psi': 'ValueError', 'expectation_value_power:finite-psi': 'ValueError', 'enlarge_mps_unit_cell:factor-1': 'ValueError',
     'enlarge_mps_unit_cell:non-integer': 'ValueError', 'enlarge_mps_unit_cell:finite': 'ValueError', 'MPOTransferMatrix:finite': 'ValueError'}
+K_TTL_START = 'C11:to_TermList:start-not-ascending:terms-dropped'
 K_POWER_L1 = 'C11:expectation_value_power:single-site-unit-cell:max_range=1:UnboundLocalError'
-OPTS_VARIANTS = ['expdecay', 'is_equal_eps', 'refusals', 'expdecay', 'is_equal_eps']
+K_L1_APPLY = 'C11:apply:single-site-chain:right-leg-not-projected-on-IdR'
+K_L1_PLUSID = 'C11:plus_identity:single-site-chain:raises'
+OPTS_VARIANTS = ['expdecay', 'is_equal_eps', 'refusals', 'expdecay', 'is_equal_eps', 'single_site', 'expdecay', 'is_equal_eps']
 
 
 def distinct_terms(rng, kind, n, conserve, nt, maxr, big=True):
@@ -1248,19 +1285,29 @@ def gen_opts(rng, idx):
         L = 3
         terms = [[[['Sp', 0], ['Sm', 1]], [1.0, 0.5]], [[['Sz', 1], ['Sz', 2]], [0.7, 0]]]
         case.update({'site': {'type': 'SpinHalf', 'conserve': None}, 'L': L, 'terms': terms, 'terms_inf': [[[['Sz', 0], ['Sz', 1]], [1.0, 0]]]})
+    elif v == 'single_site':
+        terms = [[[['Sz', 0]], C.cpx(rng, False)], [[[rng.choice(['Sx', 'Sp', 'Sy']), 0]], C.cpx(rng, False)]]
+        if rng.random() < 0.5:
+            terms.append([[['Sm', 0], ['Sp', 0]], C.cpx(rng, False)])
+        t0 = 0.05
+        case.update({'site': {'type': 'SpinHalf', 'conserve': None}, 'L': 1, 'A': {'terms': terms, 'form': ['graph', 'sum', 'neg'][(idx // 8) % 3], 'split': 1, 'range': 'known'},
+                     'dts': [[-t0 / 2 ** n, 0] for n in range(3)], 'alpha': C.cpx(rng, False), 'beta': C.cpx(rng, False)})
     elif v == 'expdecay':
-        conserve = [None, 'Sz'][(idx // 5) % 2]
+        conserve = [None, 'Sz'][(idx // 8) % 2]
         L = rng.choice([1, 2])
         # (operators that are elements of the operator basis of to_TermList, so that `cutoff` acts on the strengths themselves)
         a, b, h_ = ('Sz', 'Sz', 'Sz') if conserve else rng.choice([('Sz', 'Sz', 'Sz'), ('Sp', 'Sm', 'Sz'), ('Sm', 'Sp', 'Sz'), ('Sz', 'Sz', 'Sp')])
         lam = rng.choice([0.5, 0.7])
         q = rng.randint(1, 3)
-        case.update({'site': {'type': 'SpinHalf', 'conserve': conserve}, 'L': L, 'lam': lam, 'opa': a, 'opb': b, 'oph': h_, 'h': [round(rng.uniform(0.5, 1.0), 3), 0.0],
-                     'range': ['none', 'inf'][(idx // 10) % 2], 'psi_L': L * rng.choice([1, 2]), 'state': {'charged': conserve is not None}, 'short': rng.choice([1, 2]),
+        case.update({'site': {'type': 'SpinHalf', 'conserve': conserve}, 'L': L, 'lam': lam, 'opa': a, 'opb': b, 'oph': h_, 'h': [round(rng.uniform(0.75, 1.0), 3), 0.0],
+                     'range': ['none', 'inf'][(idx // 3) % 2], 'psi_L': L * rng.choice([1, 2]), 'state': {'charged': conserve is not None}, 'short': rng.choice([1, 2]),
+                     'boundary': idx % 8 == 0,
                      'ttl_range': rng.randint(3, 6), 'cutoff': lam ** (q + 0.5), 'q': q,
                      'prefactors': [[0, [a] + ['Id'] * n_ + [b]] for n_ in range(0, 3)] + [[rng.randint(0, 3), [h_]]]})
+        if case['boundary']:            # single-site unit cells, exactly one contracted site
+            case.update({'L': 1, 'psi_L': 1, 'short': 1})
     else:
-        kind = rng.choice(['SpinHalf', 'Fermion'])
+        kind = ['SpinHalf', 'Fermion'][1 if idx % 8 == 7 and (idx // 8) % 2 else 0]
         conserve = rng.choice([None, 'Sz' if kind == 'SpinHalf' else 'N'])
         L = rng.choice([3, 4])
         A = distinct_terms(rng, kind, L, conserve, rng.randint(2, 4), L - 1, big=False)
@@ -1273,7 +1320,9 @@ def gen_opts(rng, idx):
         B = copy.deepcopy(Ah)
         B[k] = [B[k][0], [B[k][1][0] * (1 + delta), B[k][1][1]]]
         case.update({'site': {'type': kind, 'conserve': conserve}, 'L': L, 'N': L, 'bc': 'finite', 'terms': Ah, 'terms_b': B, 'eps': [1e-10, 1e-5, 0.05],
-                     'cutoff': 0.2, 'A_half': A})
+                     'cutoff': 0.2, 'A_half': A,
+                     # `start`: "(list of) int": one site / ascending / not ascending, in turn
+                     'start': [[rng.randrange(L)], sorted(rng.sample(range(L), 2)), sorted(rng.sample(range(L), 2), reverse=True), [L - 1, 0]][({1: 0, 4: 1, 7: 2}[idx % 8] + 3 * (idx // 8)) % 4]})
     return case
 
 
@@ -1292,6 +1341,46 @@ def check_opts(ctx, case, r):
             tag('refusal:' + nm)
             if got != want:
                 probs.append(('C11:refusal:' + nm, 'documented refusal %s: expected %s, the call %s' % (nm, want, got)))
+    elif v == 'single_site':
+        import scipy.linalg as sl
+        d = make_dense(r, ops, 1, 1, True)
+        A = C.dense_terms(d, case['A']['terms'])[0]
+        desc = 'finite MPO on ONE site (%s, form %s)' % (case['A']['terms'], case['A']['form'])
+        tag('single-site-chain')
+        psi = mats['psi']
+        for nm, ref, what in (('W/H', A, 'the MPO'), ('W/dagger', A.conj().T, 'dagger()'), ('W/add', A + A.conj().T, 'H + H.dagger()'),
+                              ('W/plus_identity', cz(case['alpha']) * np.eye(2) + cz(case['beta']) * A, 'plus_identity')):
+            if nm in mats and maxdiff(mats[nm], ref) > 1e-10:
+                probs.append(('C11:single-site:' + nm[2:], '%s: %s differs from the dense operator by %.2e' % (desc, what, maxdiff(mats[nm], ref))))
+        if 'plus_identity_raises' in r:
+            probs.append((K_L1_PLUSID, '%s: plus_identity raised %s' % (desc, r['plus_identity_raises'])))
+        ev = np.vdot(psi, A @ psi)
+        if 'expectation_value' in r and abs(cz(r['expectation_value']) - ev) > 1e-10:
+            probs.append(('C11:single-site:expectation_value', '%s: expectation_value %s, dense %s' % (desc, r['expectation_value'], ev)))
+        if 'variance' in r and abs(cz(r['variance']) - (np.vdot(psi, A @ A @ psi) - ev ** 2)) > 1e-10:
+            probs.append(('C11:single-site:variance', '%s: variance %s' % (desc, r['variance'])))
+        herm = maxdiff(A, A.conj().T) < 1e-12
+        if 'is_hermitian' in r and r['is_hermitian'] != herm and maxdiff(A, A.conj().T) not in (0,) and (herm or maxdiff(A, A.conj().T) > 1e-4):
+            probs.append(('C11:single-site:is_hermitian', '%s: is_hermitian() = %s' % (desc, r['is_hermitian'])))
+        if 'is_equal' in r and (r['is_equal'][0] != herm and (herm or maxdiff(A, A.conj().T) > 1e-4) or r['is_equal'][1] or not r['is_equal'][2]):
+            probs.append(('C11:single-site:is_equal', '%s: is_equal(H.dagger()), is_equal(H + H), (H + H).is_equal(H + H) = %s' % (desc, r['is_equal'])))
+        if 'overlap' in r and abs(cz(r['overlap']) - np.trace(A.conj().T @ A.conj().T)) > 1e-9:
+            probs.append(('C11:single-site:overlap', '%s: overlap(H, H.dagger()) = %s' % (desc, r['overlap'])))
+        if 'to_TermList' in r and maxdiff(C.tl_tensor_dense(d, r['to_TermList']), A) > 1e-10:
+            probs.append(('C11:single-site:to_TermList', '%s: terms of to_TermList differ from the operator' % desc))
+        for which in ('I', 'II'):
+            errs = [float(np.linalg.norm(mats['U/%s/%d' % (which, q)] - sl.expm(cz(dt) * A), 2)) for q, dt in enumerate(case['dts']) if 'U/%s/%d' % (which, q) in mats]
+            if len(errs) == 3 and any(a_ > 1e-12 and np.log2(a_ / max(b_, 1e-300)) < 1.4 for a_, b_ in ((errs[0], errs[1]), (errs[1], errs[2]))):
+                probs.append(('C11:single-site:make_U_' + which, '%s: errors of make_U_%s at dt, dt/2, dt/4: %s' % (desc, which, errs)))
+        phi = A @ psi
+        for meth, o in r.get('apply', {}).items():
+            res = mats.get('apply/' + meth)
+            tag('single-site-chain:apply:' + meth)
+            if o['chi_outer'] != [1, 1] or res is None or res.shape != phi.shape:
+                probs.append((K_L1_APPLY, '%s: after apply by %s the single tensor of the finite MPS has outer bond dimensions %s (the right MPO leg is not projected on IdR)'
+                              % (desc, meth, o['chi_outer'])))
+            elif np.linalg.norm(res - phi) > 1e-9 * max(1.0, np.linalg.norm(phi)):
+                probs.append(('C11:single-site:apply', '%s: H|psi> by %s = %s, dense %s' % (desc, meth, res, phi)))
     elif v == 'expdecay':
         lam = case['lam']
         Lp = len(r['state'])
@@ -1382,6 +1471,15 @@ def check_opts(ctx, case, r):
             w_ = tuple(sorted((k, o_) for o_, k in t))
             words[w_] = words.get(w_, 0) + cz(st)
         clear = case['site']['type'] == 'SpinHalf' and all(abs(x) >= 0.5 or abs(x) <= 0.11 for x in words.values())
+        if 'to_TermList_start' in r and case['site']['type'] == 'SpinHalf':
+            tag('to_TermList:option:start')
+            T = C.tl_tensor_dense(d, r['to_TermList_start'])
+            want = C.dense_terms_fast(d, [[t, st] for t, st in case['terms'] if min(k for _, k in t) in case['start']])
+            asc = case['start'] == sorted(case['start'])
+            tag('to_TermList:option:start:%s' % ('one-site' if len(case['start']) == 1 else 'ascending' if asc else 'not-ascending'))
+            if maxdiff(T, want) > TOL * 10:
+                probs.append((K_TTL_START if not asc else 'C11:opts:to_TermList:start', '%s: to_TermList(start=%s) differs from the terms of A whose left-most site is in `start` by %.3e'
+                              % (desc, case['start'], maxdiff(T, want))))
         if 'to_TermList_cutoff' in r and clear:
             tag('to_TermList:option:cutoff')
             keep = [[[[o_, k] for k, o_ in w_], [x.real, x.imag]] for w_, x in words.items() if abs(x) >= case['cutoff']]
@@ -1394,3 +1492,180 @@ def check_opts(ctx, case, r):
         probs.append(('C11:opts:raises:' + nm.split(':')[0], '%s: %s raised %s' % (v, nm, e)))
     ctx.count(stream, case, nontrivial=True, sample={'variant': v, 'L': L})
     report(ctx, case, stream, probs)
+
+
+# ------------------------------------------------------------------------------------------
+# assembling the streams; coverage table of the evidence
+# ------------------------------------------------------------------------------------------
+GENS = {'chain': gen_chain, 'ctor': gen_ctor, 'evo': gen_evo, 'iapply': gen_iapply, 'ienv': gen_ienv, 'opts': gen_opts}
+CHECKS = {'chain': check_chain, 'ctor': check_ctor, 'evo': check_evo, 'iapply': check_iapply, 'ienv': check_ienv, 'opts': check_opts}
+
+
+def ext_cases(ctx, rng, boost=1.0):
+    counts = {'chain': ctx.pick(70, 560), 'ctor': ctx.pick(28, 224), 'evo': ctx.pick(12, 72), 'iapply': ctx.pick(8, 64), 'ienv': ctx.pick(15, 120),
+              'opts': ctx.pick(16, 128)}
+    out = []
+    for sub, n in counts.items():
+        out += [GENS[sub](rng, i) for i in range(int(n * boost))]
+    return out
+
+
+def check_ext(ctx, case, r):
+    CHECKS[case['sub']](ctx, case, r)
+
+
+# public names of the anchored classes -> how the check reaches them ('covered': the call counter of the runner must be positive in
+# every run) or why they are outside the property ('excluded')
+COVERED = 'covered'
+CLASSIFY = {
+    'MPO.__init__': (COVERED, 'all streams'), 'MPO.copy': (COVERED, 'ext_chain copy_mutate; dagger of explicit_plus_hc MPOs'),
+    'MPO.save_hdf5': ('excluded', 'saving / loading is property C17'), 'MPO.from_hdf5': ('excluded', 'saving / loading is property C17'),
+    'MPO.from_grids': (COVERED, 'algebra (grids), ext_ctor (entry kinds, scalar markers, bc infinite, Ws_qtotal, legs, explicit_plus_hc), plus_identity'),
+    'MPO.from_wavepacket': (COVERED, 'ext_ctor'), 'MPO.from_Wflat': (COVERED, 'results (how=wflat), ext_chain wflat, ext_ctor (permute / dtype / charges)'),
+    'MPO.test_sanity': (COVERED, 'all streams'), 'MPO.chi': (COVERED, 'all streams'), 'MPO.get_W': (COVERED, 'all streams'),
+    'MPO.set_W': (COVERED, 'ext_chain set_W'), 'MPO.get_IdL': (COVERED, 'all streams'), 'MPO.get_IdR': (COVERED, 'all streams'),
+    'MPO.enlarge_mps_unit_cell': (COVERED, 'ext_chain enlarge, ext_iapply'), 'MPO.group_sites': (COVERED, 'ext_chain group'),
+    'MPO.extract_segment': (COVERED, 'ext_chain segment'), 'MPO.sort_legcharges': (COVERED, 'results, ext_chain sort'),
+    'MPO.make_U': (COVERED, 'propagator, ext_chain make_U, ext_evo'), 'MPO.make_U_I': (COVERED, 'propagator, c11_make_U_I, ext_evo'),
+    'MPO.make_U_II': (COVERED, 'propagator, ext_evo'), 'MPO.expectation_value': (COVERED, 'algebra, infinite, results, ext_chain, ext_ienv, ext_opts'),
+    'MPO.expectation_value_finite': (COVERED, 'algebra, ext_chain'), 'MPO.expectation_value_TM': (COVERED, 'infinite, results, ext_ienv, ext_opts'),
+    'MPO.expectation_value_power': (COVERED, 'infinite, results, ext_ienv, ext_opts'), 'MPO.variance': (COVERED, 'algebra, results, ext_chain'),
+    'MPO.prefactor': (COVERED, 'algebra, results_plus_hc, ext_ctor, ext_opts'), 'MPO.to_TermList': (COVERED, 'algebra, infinite, results, ext_chain, ext_opts'),
+    'MPO.dagger': (COVERED, 'all streams'), 'MPO.is_hermitian': (COVERED, 'all streams'), 'MPO.is_equal': (COVERED, 'all streams'),
+    'MPO.apply': (COVERED, 'algebra, ext_chain, ext_ctor, ext_evo, ext_iapply'), 'MPO.apply_naively': (COVERED, 'algebra, ext_chain, ext_iapply'),
+    'MPO.apply_zipup': (COVERED, 'algebra, ext_chain'), 'MPO.plus_identity': (COVERED, 'algebra, results, ext_chain'),
+    'MPO.overlap': (COVERED, 'algebra, results_plus_hc, ext_chain (default window)'), 'MPO.distance': (COVERED, 'algebra, results_plus_hc, ext_chain'),
+    'MPO.__add__': (COVERED, 'all streams'),
+    'MPOGraph.__init__': (COVERED, 'all streams'), 'MPOGraph.from_terms': (COVERED, 'through from_term_list (the construction itself is property C10)'),
+    'MPOGraph.from_term_list': (COVERED, 'all streams'), 'MPOGraph.test_sanity': (COVERED, 'all streams'), 'MPOGraph.add': (COVERED, 'c11_make_U_I (explicit graphs)'),
+    'MPOGraph.add_string_left_to_right': (COVERED, 'through from_term_list (property C10)'),
+    'MPOGraph.add_string_right_to_left': ('excluded', 'multi-coupling construction of CouplingModel: property C10'),
+    'MPOGraph.add_missing_IdL_IdR': (COVERED, 'all streams'), 'MPOGraph.has_edge': (COVERED, 'through from_term_list'),
+    'MPOGraph.build_MPO': (COVERED, 'all streams'), 'MPOGraph.__repr__': ('excluded', 'display only'), 'MPOGraph.__str__': ('excluded', 'display only'),
+    'MPOEnvironment.__init__': (COVERED, 'algebra, ext_chain env, ext_ienv'), 'MPOEnvironment.init_first_LP_last_RP': (COVERED, 'ext_ienv (iter / TM / start_env_sites)'),
+    'MPOEnvironment.test_sanity': (COVERED, 'all'), 'MPOEnvironment.init_LP': (COVERED, 'all'), 'MPOEnvironment.init_RP': (COVERED, 'all'),
+    'MPOEnvironment.get_LP': (COVERED, 'all'), 'MPOEnvironment.get_RP': (COVERED, 'all'), 'MPOEnvironment.full_contraction': (COVERED, 'algebra, ext_chain env (bra != ket), ext_ienv'),
+    'MPOEnvironmentBuilder.__init__': (COVERED, 'ext_ienv (Hermitian H, equal unit cells: asserted preconditions)'),
+    'MPOEnvironmentBuilder.test_sanity': (COVERED, 'ext_ienv'), 'MPOEnvironmentBuilder.init_LP_RP_iterative': (COVERED, 'ext_ienv: energy per site, converged environments'),
+    'MPOTransferMatrix.__init__': (COVERED, 'infinite, ext_ienv'), 'MPOTransferMatrix.matvec': (COVERED, 'infinite, ext_ienv'),
+    'MPOTransferMatrix.dominant_eigenvector': (COVERED, 'infinite, ext_ienv'), 'MPOTransferMatrix.energy': (COVERED, 'infinite, ext_ienv'),
+    'MPOTransferMatrix.find_init_LP_RP': (COVERED, 'ext_ienv (calc_E, guess, both gauges)'),
+    'make_W_II': (COVERED, 'propagator, ext_evo'), 'grid_insert_ops': (COVERED, 'algebra, ext_ctor (all entry kinds)'),
+    'ExpMPOEvolution.__init__': (COVERED, 'ext_evo'), 'ExpMPOEvolution.prepare_evolve': (COVERED, 'ext_evo'), 'ExpMPOEvolution.calc_U': (COVERED, 'ext_evo'),
+    'ExpMPOEvolution.evolve_step': (COVERED, 'ext_evo'),
+}
+EXCLUDED_NOTES = [
+    'extract_segment of a grouped MPO raises ZeroDivisionError (L // unit_cell_width = 0; MPS.extract_segment alike; grouping documents that unit_cell_width stays): not drawn',
+    'MPO.__add__ documents "standard sum form": after plus_identity with beta != 1 (beta sits on the IdL -> IdL entry) no sum is taken; make_U_I asserts all markers (not after plus_identity, whose result has IdL[-1] = IdR[0] = None)',
+    'MPS.compress_svd of an infinite MPS is a single sweep of local SVDs around guessed singular values (documented for MPOs close to the identity): exactness of MPO.apply on infinite MPS is required of apply_naively + canonical_form, of the variational compression and of the SVD compression of a product state under disjoint gates only',
+    'MPOEnvironmentBuilder (default initialisation of infinite MPOEnvironments) asserts equal unit cells of H and psi and takes the real part of the energy per site: checked for Hermitian H without the flag explicit_plus_hc and psi.L == H.L (force_init_method TM / None for the rest)',
+    'prefactor returns 0.0 when the IdL / IdR marker at an end of the string is unknown: for MPOs without inner markers (from_wavepacket) only full-length strings are evaluated',
+    'MPO.distance: the branch "negative distance" (RuntimeError) and MPO._to_valid_index (deprecated) are not reached; expectation_value_finite for segment MPS only warns that boundary terms are ignored: not drawn',
+    'TimeDependentExpMPOEvolution has no code of its own (run of TimeDependentHAlgorithm): not drawn',
+]
+# option / branch tags every run must reach (forced by the index stratification of the generators)
+REQUIRED_TAGS = [
+    'sort_legcharges:with-cached-graph', 'enlarge_mps_unit_cell:with-cached-graph', 'ienv:TM_badguess', 'ienv:expectation_value_TM_noncanonical',
+    'ienv:iter_Es_sorted', 'ienv:iter_Es_enlarged', 'ienv:iter_Es_second', 'ienv:MPOEnvironment:force_init_method=noncanonical',
+    'single-site-chain', 'single-site-chain:apply:naive', 'single-site-chain:apply:SVD', 'single-site-chain:apply:zip_up',
+    'make_W_II:on-site-terms-only', 'to_TermList:option:start:one-site', 'to_TermList:option:start:ascending', 'to_TermList:option:start:not-ascending',
+    'chain:any-step:operand-with-negative-IdR',
+    'ExpMPOEvolution', 'ExpMPOEvolution:H-form=graph', 'ExpMPOEvolution:H-form=neg', 'ExpMPOEvolution:H-form=sum', 'ExpMPOEvolution:approximation=I',
+    'ExpMPOEvolution:approximation=II', 'ExpMPOEvolution:approximation=default', 'ExpMPOEvolution:compression_method=SVD',
+    'ExpMPOEvolution:compression_method=variational', 'ExpMPOEvolution:compression_method=zip_up', 'ExpMPOEvolution:order=1',
+    'ExpMPOEvolution:order=2', 'ExpMPOEvolution:order=default', 'ExpMPOEvolution:phase:first-run', 'ExpMPOEvolution:phase:new-dt-recomputed-U',
+    'ExpMPOEvolution:phase:second-run-cached-U', 'MPOEnvironment:LHeff/RHeff', 'MPOEnvironment:bra!=ket',
+    'MPOEnvironment:charged-W-between-different-sectors', 'apply:infinite', 'apply:infinite:SVD', 'apply:infinite:charges', 'apply:infinite:layer-0',
+    'apply:infinite:layer-1', 'apply:infinite:layer-2', 'apply:infinite:naive', 'apply:infinite:variational', 'apply:m_temp=1', 'apply:m_temp=2',
+    'apply:m_temp=3', 'apply:method:SVD', 'apply:method:naive', 'apply:method:variational', 'apply:method:variationalQR', 'apply:method:zip_up',
+    'apply:method:zip_up_direct', 'apply:trunc_weight=0.5', 'apply:trunc_weight=1.0', 'apply_zipup:no-svd_min', 'chain:any-step:explicit_plus_hc',
+    'chain:any-step:on-grouped', 'chain:any-step:on-segment', 'chain:final:apply', 'chain:final:apply:finite', 'chain:final:apply:on-grouped',
+    'chain:final:env', 'chain:final:env:finite', 'chain:final:env:on-grouped', 'chain:final:expectation', 'chain:final:expectation:explicit_plus_hc',
+    'chain:final:expectation:finite', 'chain:final:expectation:infinite', 'chain:final:expectation:on-grouped', 'chain:final:is_hermitian',
+    'chain:final:is_hermitian:explicit_plus_hc', 'chain:final:is_hermitian:finite', 'chain:final:is_hermitian:infinite',
+    'chain:final:is_hermitian:on-grouped', 'chain:final:is_hermitian:on-segment', 'chain:final:make_U', 'chain:final:make_U:finite',
+    'chain:final:pair', 'chain:final:pair:explicit_plus_hc', 'chain:final:pair:finite', 'chain:final:pair:infinite', 'chain:final:pair:on-grouped',
+    'chain:final:pair:on-segment', 'chain:final:to_TermList', 'chain:final:to_TermList:finite', 'chain:final:to_TermList:infinite', 'chain:step:add',
+    'chain:step:addself', 'chain:step:copy_mutate', 'chain:step:copy_mutate:finite', 'chain:step:copy_mutate:infinite', 'chain:step:dagger',
+    'chain:step:enlarge', 'chain:step:enlarge:infinite', 'chain:step:group', 'chain:step:group:default', 'chain:step:group:finite',
+    'chain:step:group:infinite', 'chain:step:group:on-grouped', 'chain:step:plus_identity', 'chain:step:plus_identity:finite', 'chain:step:radd',
+    'chain:step:segment', 'chain:step:segment:finite', 'chain:step:segment:infinite', 'chain:step:segment:on-segment', 'chain:step:set_W',
+    'chain:step:sort', 'chain:step:wflat', 'expdecay', 'expdecay:max_range=inf', 'expdecay:max_range=none',
+    'expectation_value:max_range-None-or-large->TM', 'expectation_value_power:tolerance-not-reached-warning', 'from_Wflat', 'from_Wflat:bc=finite',
+    'from_Wflat:charges', 'from_Wflat:charges:site.perm-nontrivial:permute=None', 'from_Wflat:dtype-option', 'from_Wflat:permute=False',
+    'from_Wflat:permute=None', 'from_Wflat:permute=True', 'from_grids', 'from_grids:Ws_qtotal-per-site', 'from_grids:Ws_qtotal-single',
+    'from_grids:bc=finite', 'from_grids:bc=infinite', 'from_grids:entry-kind:arr', 'from_grids:entry-kind:list', 'from_grids:entry-kind:str',
+    'from_grids:infinite-with-charges', 'from_grids:markers-list', 'from_grids:markers-scalar', 'from_grids:option:Ws_qtotal',
+    'from_grids:option:explicit_plus_hc', 'from_grids:option:legs_roundtrip', 'from_grids:option:max_range', 'from_wavepacket',
+    'from_wavepacket:apply:SVD', 'from_wavepacket:apply:naive', 'from_wavepacket:apply:variational', 'from_wavepacket:apply:zip_up',
+    'from_wavepacket:dagger', 'from_wavepacket:eps-option', 'from_wavepacket:first-coefficient-below-eps',
+    'from_wavepacket:first-coefficient-nonzero', 'from_wavepacket:inner-coefficient-below-eps', 'from_wavepacket:op-needs-JW=False',
+    'from_wavepacket:op-needs-JW=True', 'from_wavepacket:sum', 'from_wavepacket:sum2', 'from_wavepacket:w1', 'ienv',
+    'ienv:MPOEnvironment:force_init_method=None', 'ienv:MPOEnvironment:force_init_method=TM', 'ienv:MPOEnvironment:force_init_method=iter',
+    'ienv:MPOEnvironment:start_env_sites', 'ienv:TM_Es', 'ienv:TM_guess', 'ienv:entangled-state', 'ienv:expectation_value',
+    'ienv:expectation_value:init_env_data-option', 'ienv:expectation_value_TM', 'ienv:expectation_value_power', 'ienv:expectation_value_power_tol',
+    'ienv:explicit_plus_hc', 'ienv:iter_Es', 'ienv:product-state', 'ienv:psi-unit-cell-equal', 'ienv:psi-unit-cell-larger', 'is_equal:eps-option',
+    'is_equal:max_range-option', 'is_hermitian:eps-option', 'is_hermitian:max_range-option', 'make_U:of-a-result:I', 'make_U:of-a-result:II',
+    'overlap:default-num_sites', 'overlap:default-num_sites:other-known', 'overlap:default-num_sites:other-unknown', 'pair:mixed-explicit_plus_hc',
+    'pair:pert', 'pair:pert:finite', 'pair:pert:infinite', 'pair:same', 'pair:same:finite', 'pair:same:infinite', 'prefactor:infinite-range-MPO',
+    'refusal:MPO:IdL-wrong-length', 'refusal:MPOTransferMatrix:finite', 'refusal:add:different-flags', 'refusal:apply:unknown-method',
+    'refusal:apply_naively:bc-mismatch', 'refusal:apply_naively:explicit_plus_hc', 'refusal:apply_zipup:explicit_plus_hc',
+    'refusal:apply_zipup:infinite', 'refusal:enlarge_mps_unit_cell:factor-1', 'refusal:enlarge_mps_unit_cell:finite',
+    'refusal:enlarge_mps_unit_cell:non-integer', 'refusal:expectation_value_TM:finite-psi', 'refusal:expectation_value_power:finite-psi',
+    'refusal:from_Wflat:wrong-length', 'refusal:make_U:unknown-approximation', 'refusal:make_U_I:explicit_plus_hc',
+    'refusal:make_U_II:explicit_plus_hc', 'refusal:overlap:finite-vs-infinite', 'refusal:plus_identity:explicit_plus_hc',
+    'refusal:plus_identity:infinite', 'refusal:plus_identity:sites-non-contiguous', 'refusal:plus_identity:sites-outside',
+    'refusal:variance:explicit_plus_hc', 'refusal:variance:infinite', 'to_TermList:infinite-range-MPO', 'to_TermList:option:cutoff',
+    'to_TermList:option:ignore', 'to_TermList:option:ignore-default', 'to_TermList:option:max_range', 'to_TermList:option:start',
+    'variance:variance', 'variance:variance_ev0', 'variance:variance_evgiven',
+]
+
+
+def source_items(repo):
+    """public functions of the anchored classes / modules, by reflection on the source (AST)"""
+    items = []
+    for rel, classes, funcs in (('tenpy/networks/mpo.py', ['MPO', 'MPOGraph', 'MPOEnvironment', 'MPOEnvironmentBuilder', 'MPOTransferMatrix'], True),
+                                ('tenpy/algorithms/mpo_evolution.py', ['ExpMPOEvolution', 'TimeDependentExpMPOEvolution'], False)):
+        tree = ast.parse(open(os.path.join(repo, rel)).read())
+        for node in tree.body:
+            if isinstance(node, ast.ClassDef) and node.name in classes:
+                for m in node.body:
+                    if isinstance(m, ast.FunctionDef):
+                        items.append((node.name + '.' + m.name, m.name))
+            elif isinstance(node, ast.ClassDef) and rel.endswith('mpo.py'):
+                items.append((node.name, node.name))        # a class the table does not know yet
+            elif isinstance(node, ast.FunctionDef) and funcs:
+                items.append((node.name, node.name))
+    return items
+
+
+def coverage_report(ctx, api_calls):
+    table = {}
+    public = lambda short: not short.startswith('_') or (short.startswith('__') and short.endswith('__'))
+    known_classes = ('MPO', 'MPOGraph', 'MPOEnvironment', 'MPOEnvironmentBuilder', 'MPOTransferMatrix')
+    for name, short in source_items(common.REPO):
+        calls = int(api_calls.get(name, 0))
+        if name in known_classes:
+            continue
+        if name in CLASSIFY:
+            how, why = CLASSIFY[name]
+            table[name] = {'class': how, 'by': why, 'calls': calls}
+            if how == COVERED and calls == 0:
+                ctx.fail('correspondence', 'coverage: %s is classified as covered (%s) but the runner never called it in this run' % (name, why), None)
+        elif public(short):
+            table[name] = {'class': 'UNCLASSIFIED', 'calls': calls}
+            ctx.fail('correspondence', 'coverage: public name %s of the anchored source is neither covered by a stream nor classified as outside the property '
+                     '(harness/c11_ext.py CLASSIFY)' % name, None)
+        else:
+            table[name] = {'class': 'private', 'calls': calls}
+    missing = [t for t in REQUIRED_TAGS if TAGS.get(t, 0) == 0]
+    for t in missing[:8]:
+        ctx.fail('correspondence', 'coverage: option / branch %r was not reached in this run (stratification of the generators broken)' % t, None)
+    ctx.cov['C11_api_coverage'] = table
+    ctx.cov['C11_option_coverage'] = dict(sorted(TAGS.items()))
+    ctx.cov['C11_api_summary'] = {'public_covered': sum(1 for v in table.values() if v['class'] == COVERED),
+                                  'public_excluded': sum(1 for v in table.values() if v['class'] == 'excluded'),
+                                  'private_reached': sum(1 for v in table.values() if v['class'] == 'private' and v['calls'] > 0),
+                                  'private_not_reached': sorted(k for k, v in table.items() if v['class'] == 'private' and v['calls'] == 0),
+                                  'option_tags_reached': len(TAGS), 'option_tags_required': len(REQUIRED_TAGS)}
+    ctx.assumptions += ['C11 coverage audit: ' + x for x in EXCLUDED_NOTES]
